@@ -69,7 +69,13 @@ def _check_1d(desc, tier, V, st):
             data.append(('x^%d' % k, pts ** k))
     Rpts = np.array([S.row(x, 0) for x in pts])
     RX = np.array([S.row(x, 0) for x in X])
-    for name, u in data:
+    for k_item, (name, u) in enumerate(data):
+        if k_item == 1:
+            # the same object is asked for its quadrature weights in between: later interpolations must not notice
+            try:
+                itp.get_quadrature_coefficients()
+            except Exception as e:  # noqa
+                V('interp-exception:%s:%s' % (cls, type(e).__name__), '%s: get_quadrature_coefficients(): %s: %s' % (key, type(e).__name__, e))
         st['evals'] += 1
         if nontriv:
             st['nontrivial'] += 1
